@@ -40,7 +40,10 @@ type sessSpec struct {
 	cutKind, cutBlock int
 	dur               []int
 	snaproot          int
+	reimp             int // how many of the blocks lost by the crash are re-imported after the restart (reimpAll: all)
 }
+
+const reimpAll = 4095
 
 func parseCaseV2(top SL) *caseSpec {
 	cfg, tr := AsList(top[0]), AsList(top[1])
@@ -68,10 +71,16 @@ func parseCaseV2(top SL) *caseSpec {
 			bad("session arity")
 		}
 		cut, data := AsList(f[1]), AsList(f[2])
-		if len(cut) != 2 || len(data) != 2 {
+		if (len(cut) != 2 && len(cut) != 3) || len(data) != 2 {
 			bad("session cut/data")
 		}
-		s := sessSpec{ops: parseOps(f[0]), cutKind: AsInt(cut[0]), cutBlock: AsInt(cut[1]), snaproot: -1}
+		s := sessSpec{ops: parseOps(f[0]), cutKind: AsInt(cut[0]), cutBlock: AsInt(cut[1]), snaproot: -1, reimp: reimpAll}
+		if len(cut) == 3 {
+			s.reimp = AsInt(cut[2])
+			if s.reimp < 0 || s.reimp > reimpAll {
+				bad("reimp")
+			}
+		}
 		if s.cutKind < 0 || s.cutKind > 3 || s.cutBlock < 0 {
 			bad("cut")
 		}
@@ -92,7 +101,11 @@ func parseCaseV2(top SL) *caseSpec {
 func (cs *caseSpec) sxV2() Sx {
 	ss := SL{}
 	for _, s := range cs.sessions {
-		ss = append(ss, L(opsSx(s.ops), L(I(int64(s.cutKind)), I(int64(s.cutBlock))), L(intsSx(s.dur), Opt(s.snaproot >= 0, I(int64(s.snaproot))))))
+		cut := SL{I(int64(s.cutKind)), I(int64(s.cutBlock))}
+		if s.reimp != reimpAll {
+			cut = append(cut, I(int64(s.reimp)))
+		}
+		ss = append(ss, L(opsSx(s.ops), cut, L(intsSx(s.dur), Opt(s.snaproot >= 0, I(int64(s.snaproot))))))
 	}
 	return L(L(I(int64(cs.scheme)), Bool(cs.archive), Bool(cs.snaps)), L(I(int64(cs.C)), I(int64(cs.J)), I(int64(cs.S))), ss)
 }
@@ -210,7 +223,13 @@ func (cs *caseSpec) runV2() (Result, []sessSpec) {
 		if !onChain && len(fails) == n0 {
 			fail("%s: head block is not an ancestor of the head header", when)
 		}
+		if msg, known := markersAbove(db, bc, maxn); msg != "" {
+			fail("%s: %s", when, msg)
+		} else if known {
+			tag["C38-linked-canon-above-head-header"] = true
+		}
 	}
+	e.check = checkChain
 
 	dataOK := true
 	top := SL{}
@@ -253,6 +272,7 @@ func (cs *caseSpec) runV2() (Result, []sessSpec) {
 			dead = true
 			break
 		}
+		e.check = checkChain
 		checkChain(when + " restart")
 		obs1 := observe()
 		al1 := align(when + " restart")
@@ -337,14 +357,18 @@ func (cs *caseSpec) runV2() (Result, []sessSpec) {
 			}
 		}
 		var class2 int64
+		if s.reimp < len(lost) {
+			lost = lost[:s.reimp]
+			tag["partial-reimport"] = true
+		}
 		if len(lost) > 0 {
 			tag["reimport-lost"] = true
 			_, err := e.bc.InsertChain(lost)
 			class2 = errClass(err)
 			if class2 != 0 {
 				fail("%s: re-import of the %d blocks lost by the crash failed: %v", when, len(lost), err)
-			} else if h := e.bc.CurrentBlock(); h.Hash() != e.preHead {
-				fail("%s: after re-importing the lost blocks the head is block %d, not %d", when, id(h.Hash()), preHeadID)
+			} else if h, want := e.bc.CurrentBlock(), lost[len(lost)-1]; h.Hash() != want.Hash() {
+				fail("%s: after re-importing the lost blocks the head is block %d, not %d", when, id(h.Hash()), id(want.Hash()))
 			}
 			checkChain(when + " re-import")
 		}
@@ -491,7 +515,7 @@ func genCaseV2(r *Rng) *caseSpec {
 	// clean shutdowns and hard crashes alternate in half of the cases
 	alternate, phase := r.Chance(1, 2), r.Intn(2)
 	flush := func(last bool) {
-		s := sessSpec{ops: cur, snaproot: -1}
+		s := sessSpec{ops: cur, snaproot: -1, reimp: reimpAll}
 		switch k := r.Intn(20); {
 		case k < 8:
 			s.cutKind = 0
@@ -524,7 +548,7 @@ func genCaseV2(r *Rng) *caseSpec {
 		}
 		if !last && r.Chance(1, 5) {
 			// a run that imports nothing
-			e := sessSpec{snaproot: -1, cutKind: r.Intn(2)}
+			e := sessSpec{snaproot: -1, cutKind: r.Intn(2), reimp: reimpAll}
 			cs.sessions = append(cs.sessions, e)
 		}
 	}
@@ -539,6 +563,45 @@ func genCaseV2(r *Rng) *caseSpec {
 	}
 	if len(cs.sessions) > 8 {
 		cs.sessions = cs.sessions[:8]
+	}
+	return cs
+}
+
+// genForkCase: state flushed at block c below the head, crash; the restart repairs the head
+// block to c (head header and markers above survive); only a PART of the lost chain is
+// re-imported (up to k < C), then a competing block on k arrives, and the node goes down again.
+func genForkCase(r *Rng) *caseSpec {
+	cs := &caseSpec{snaproot: -1, sb: 1000, v2: true}
+	if r.Chance(1, 2) {
+		cs.scheme = 1
+	}
+	cs.C = r.Range(4, 30)
+	c := r.Range(1, cs.C-2)
+	k := r.Range(c+1, cs.C-1)
+	cs.J, cs.S = k, r.Range(1, 3)
+	ensureBlocks(cs.C, cs.J, cs.S)
+	rng := func(a, b int) []int {
+		var l []int
+		for i := a; i <= b; i++ {
+			l = append(l, i)
+		}
+		return l
+	}
+	s0 := sessSpec{snaproot: -1, reimp: k - c}
+	for _, seg := range segments(r, rng(1, c)) {
+		s0.ops = append(s0.ops, opSpec{kind: 0, ids: seg})
+	}
+	s0.ops = append(s0.ops, opSpec{kind: 1, arg: c})
+	for _, seg := range segments(r, rng(c+1, cs.C)) {
+		s0.ops = append(s0.ops, opSpec{kind: 0, ids: seg})
+	}
+	s1 := sessSpec{snaproot: -1, reimp: reimpAll, cutKind: r.Intn(2)}
+	for _, seg := range segments(r, rng(cs.sb+1, cs.sb+cs.S)) {
+		s1.ops = append(s1.ops, opSpec{kind: 0, ids: seg})
+	}
+	cs.sessions = []sessSpec{s0, s1}
+	if r.Chance(1, 3) {
+		cs.sessions = append(cs.sessions, sessSpec{snaproot: -1, reimp: reimpAll, cutKind: r.Intn(2)})
 	}
 	return cs
 }
